@@ -11,6 +11,9 @@
 (*                statement admits is a successor (HashPrefixCore.tla).    *)
 (*   LookupFails(n) the same lookup while the service answers with an      *)
 (*                error: the caller gets the error, the cache is untouched.*)
+(*   ErrorReply(n)  the same lookup answered by a reply whose response     *)
+(*                code reports an error and that carries no records: no    *)
+(*                entry may come of it, the cache is untouched.            *)
 (*   Tick         one unit of time passes; entries age and expire.         *)
 (*   DbChange(x)  the service learns / forgets one hash: from then on a    *)
 (*                fresh lookup and an unexpired cache entry may disagree,  *)
@@ -188,6 +191,18 @@ LookupFails(n) ==
          /\ Emit([s |-> St(db, cache, impl), a |-> "fail", n |-> n.l, q |-> q,
                   d |-> St(db', cache', impl')])
 
+\* The lookup of n is answered by an error reply (response code SERVFAIL,
+\* REFUSED, NOTIMP; no records).  Whatever the caller is told (error, or a
+\* verdict without the asked prefixes), db, cache and the ghost stay as they
+\* were: an error reply is not an answer about the database.
+ErrorReply(n) ==
+    \E q \in FailQuestions(n) :
+         /\ ImplOnly => q = ImplQ(n)
+         /\ last' = [a |-> "errreply", n |-> n.l, q |-> q, v |-> FALSE]
+         /\ UNCHANGED <<db, cache, fdb, impl>>
+         /\ Emit([s |-> St(db, cache, impl), a |-> "errreply", n |-> n.l, q |-> q,
+                  d |-> St(db', cache', impl')])
+
 Tick ==
     /\ cache' = Age(cache, 1)
     /\ fdb' = [p \in Prefixes |-> IF cache'[p].ttl = 0 THEN {} ELSE fdb[p]]
@@ -202,7 +217,7 @@ DbChange(x) ==
     /\ UNCHANGED <<cache, fdb, impl>>
     /\ Emit([s |-> St(db, cache, impl), a |-> "db", x |-> x.r, d |-> St(db', cache', impl')])
 
-Next == \/ \E n \in Names : Check(n) \/ LookupFails(n)
+Next == \/ \E n \in Names : Check(n) \/ LookupFails(n) \/ ErrorReply(n)
         \/ Tick
         \/ \E x \in DbU : DbChange(x)
 Spec == Init /\ [][Next]_vars
@@ -267,11 +282,11 @@ SameAsFresh(l, v) ==
 SuffixHashNeverBlocks(l, v) ==
     v => \E k \in 1 .. Min(4, Len(l)) : k > NameOf(l).cut /\ HOf(Suffix(l, k)) \in DbU
 
-\* A failed lookup discloses nothing but candidate prefixes either, and leaves
+\* A failed lookup / an error reply discloses nothing but candidate prefixes either, and leaves
 \* the cache as it was -- so every later answer from the cache is still what
 \* a fresh lookup returned when the entry was fetched (CacheTransparent).
 FailStepOK ==
-    last'.a = "fail" =>
+    last'.a \in {"fail", "errreply"} =>
         /\ last'.q # {}
         /\ QuestionOnlyPrefixes(last'.n, last'.q)
         /\ cache' = cache /\ fdb' = fdb /\ db' = db
